@@ -72,13 +72,22 @@ Print Assumptions C04_given_is_sublist_of_sent.
    connection), sender id / ecn / segment size / contents are the sent ones, no send shows up
    twice on a connection, and per-(sender, destination) order is kept.
 
-   NOT part of this statement: "a datagram is not delivered on two connections of one id".
-   [monitor] judges every connection on its own - [monitor_is_per_connection] in Proofs/C04.v
-   is a machine-checked observation (one send, the frame on both sockets of a twice-connected
-   id) that passes [monitor] - and [monitor] may not be changed here.  That part of the
-   property is carried by [agree]: see C04_judge_implies_cross_connection_at_most_once below. *)
+   Second conjunct ([spec2]; the clause "only on the connection that was the destination's
+   active one when the relay accepted it"): on the connection with NUMBER k, for every sender
+   id [src] of the case, the datagram frames naming [src] are exactly the frames of a sublist
+   of [conn_routed (routes cfg trace) k src] - the datagrams of [src] which the script's
+   registry history ([routes]: replaying the case's trace, each datagram frame read from a
+   running connection is recorded with the ACTIVE connection of its destination's registry
+   entry at that moment) routed to connection k.  So a frame observed on a connection that was
+   an inactive duplicate when the send was accepted fails the monitor
+   ([monitor_rejects_inactive_delivery] in Proofs/C04.v: the observation that the first
+   conjunct lets through is now refused).  [monitor1]/[spec] is the first, per-id conjunct.
+
+   Still a counting statement rather than part of [monitor]: "one send is not delivered on
+   two connections of one id" when several equal datagrams were sent - see
+   C04_judge_implies_cross_connection_at_most_once below. *)
 Theorem C04_monitor_is_property : forall (i : input) (o : output),
-  C04.monitor i o = true <-> spec i o.
+  C04.monitor i o = true <-> spec i o /\ spec2 i o.
 Proof. exact monitor_spec. Qed.
 Print Assumptions C04_monitor_is_property.
 
@@ -103,10 +112,15 @@ Theorem C04_judge_implies_cross_connection_at_most_once : forall (i : input) (o 
   C04.agree i o = true -> C04.monitor i o = true ->
   (forall id, In id (conn_ids (i_ops i)) -> In id (map fst (i_keys i))) ->
   exists l, o = Ok l /\ forall src, cross_once i src l.
-Proof. exact judge_cross_once. Qed.
+Proof. exact judge_cross_once'. Qed.
 Print Assumptions C04_judge_implies_cross_connection_at_most_once.
 
 (* The model's output under the harness schedule satisfies the monitor for every input. *)
+Theorem C04_given_is_sublist_of_routed : forall cfg t k c,
+  getc (run cfg t) k = Some c -> sublist (held c) (to_conn k (routes cfg t)).
+Proof. exact kinv2_run. Qed.
+Print Assumptions C04_given_is_sublist_of_routed.
+
 Theorem C04_model_satisfies_monitor : forall i, C04.monitor i (C04.model i) = true.
 Proof. exact model_monitor. Qed.
 Print Assumptions C04_model_satisfies_monitor.
